@@ -459,3 +459,200 @@ Section Matrix.
     rewrite (sum_data_sorted_col n _ (conj Hn (conj Hc2 Hc3))). reflexivity.
   Qed.
 End Matrix.
+
+(* ------------------------------------------------------------------ properties of the definition *)
+Lemma sumR_perm : forall l l', Permutation l l' -> sumR l = sumR l'.
+Proof. induction 1; simpl; lra. Qed.
+
+Lemma sumR_reindex : forall (f : nat -> R) (p : nat -> nat) n,
+  Permutation (map p (seq 0 n)) (seq 0 n) -> sumR (map (fun i => f (p i)) (seq 0 n)) = sumR (map f (seq 0 n)).
+Proof.
+  intros f p n H. rewrite <- (map_map p f). apply sumR_perm. apply Permutation_map. exact H.
+Qed.
+
+Lemma sumR_ge_term : forall (f : nat -> R) m j, (forall k, (k < m)%nat -> 0 <= f k) -> (j < m)%nat ->
+  f j <= sumR (map f (seq 0 m)).
+Proof.
+  induction m; intros j Hf Hj; [lia|]. rewrite seq_S, map_app, sumR_app. simpl.
+  assert (0 <= sumR (map f (seq 0 m))).
+  { apply sumR_nonneg. rewrite Forall_map. apply Forall_forall. intros k Hk. apply in_seq in Hk. apply Hf. lia. }
+  destruct (Nat.eq_dec j m) as [->|Hne]; [lra|].
+  assert (f j <= sumR (map f (seq 0 m))) by (apply IHm; [intros; apply Hf; lia|lia]).
+  assert (0 <= f m) by (apply Hf; lia). lra.
+Qed.
+
+Lemma iw_spec_ext : forall n m s M M' j, (j < m)%nat ->
+  (forall i k, (i < n)%nat -> (k < m)%nat -> M i k = M' i k) -> iw_spec n m s M j = iw_spec n m s M' j.
+Proof.
+  intros n m s M M' j Hj H.
+  assert (Hrs : forall i, (i < n)%nat -> rowsum M m i = rowsum M' m i).
+  { intros i Hi. unfold rowsum. apply sumR_map_ext_in. intros k Hk. apply in_seq in Hk. apply H; lia. }
+  assert (Ht : total M n m = total M' n m).
+  { unfold total. apply sumR_map_ext_in. intros i Hi. apply in_seq in Hi. apply Hrs; lia. }
+  assert (Hc : colsum M n j = colsum M' n j).
+  { unfold colsum. apply sumR_map_ext_in. intros i Hi. apply in_seq in Hi. apply H; lia. }
+  unfold iw_spec. apply sumR_map_ext_in. intros i Hi. apply in_seq in Hi.
+  rewrite (H i j), Hrs, Ht, Hc by lia. reflexivity.
+Qed.
+
+(* weights do not change when the rows are permuted *)
+Theorem iw_spec_row_perm : forall n m s M (p : nat -> nat) j,
+  Permutation (map p (seq 0 n)) (seq 0 n) ->
+  iw_spec n m s (fun i k => M (p i) k) j = iw_spec n m s M j.
+Proof.
+  intros n m s M p j Hp.
+  assert (Ht : total (fun i k => M (p i) k) n m = total M n m).
+  { unfold total. apply (sumR_reindex (rowsum M m) p n Hp). }
+  assert (Hc : colsum (fun i k => M (p i) k) n j = colsum M n j).
+  { unfold colsum. apply (sumR_reindex (fun i => M i j) p n Hp). }
+  unfold iw_spec. rewrite Ht, Hc.
+  apply (sumR_reindex (fun i => kl_term (M i j) (rowsum M m i / total M n m) s (colsum M n j + s)) p n Hp).
+Qed.
+
+(* weights move with the columns *)
+Theorem iw_spec_col_perm : forall n m s M (p : nat -> nat) j,
+  Permutation (map p (seq 0 m)) (seq 0 m) ->
+  iw_spec n m s (fun i k => M i (p k)) j = iw_spec n m s M (p j).
+Proof.
+  intros n m s M p j Hp.
+  assert (Hr : forall i, rowsum (fun i k => M i (p k)) m i = rowsum M m i).
+  { intros i. unfold rowsum. apply (sumR_reindex (fun k => M i k) p m Hp). }
+  assert (Ht : total (fun i k => M i (p k)) n m = total M n m).
+  { unfold total. apply sumR_map_ext_in. intros; apply Hr. }
+  unfold iw_spec. rewrite Ht. apply sumR_map_ext_in. intros i _. rewrite Hr. reflexivity.
+Qed.
+
+(* Gibbs: the weight is a KL divergence between two probability vectors, hence >= 0 *)
+Theorem iw_spec_nonneg : forall n m s M j,
+  (forall i k, (i < n)%nat -> (k < m)%nat -> 0 <= M i k) -> 0 < total M n m -> 0 < s -> (j < m)%nat ->
+  0 <= iw_spec n m s M j.
+Proof.
+  intros n m s M j HM Ht Hs Hj.
+  assert (Hrs : forall i, (i < n)%nat -> 0 <= rowsum M m i).
+  { intros i Hi. unfold rowsum. apply sumR_nonneg. rewrite Forall_map. apply Forall_forall. intros k Hk.
+    apply in_seq in Hk. apply HM; lia. }
+  assert (HC : 0 <= colsum M n j).
+  { unfold colsum. apply sumR_nonneg. rewrite Forall_map. apply Forall_forall. intros i Hi. apply in_seq in Hi. apply HM; lia. }
+  set (T := total M n m) in *. set (N := colsum M n j + s).
+  assert (HN : 0 < N) by (unfold N; lra).
+  set (l := map (fun i => (posterior (M i j) (rowsum M m i / T) s N, rowsum M m i / T)) (seq 0 n)).
+  assert (E : iw_spec n m s M j = sumR (map (fun p => fst p * ln (fst p / snd p)) l)).
+  { unfold iw_spec, l. rewrite map_map. reflexivity. }
+  assert (Hbs : sumR (map snd l) = 1).
+  { unfold l. rewrite map_map. simpl.
+    rewrite <- (map_map (rowsum M m) (fun x => x / T)). rewrite sumR_div. fold (total M n m). fold T. field. lra. }
+  assert (Hq : sumR (map fst l) = 1).
+  { unfold l. rewrite map_map. simpl. unfold posterior.
+    rewrite (sumR_map_ext_in _ _ (fun i => M i j / N + s / N * (rowsum M m i / T))) by (intros; field; lra).
+    rewrite sumR_map_plus.
+    rewrite <- (map_map (fun i => M i j) (fun x => x / N)). rewrite sumR_div. fold (colsum M n j).
+    rewrite <- (map_map (fun i => rowsum M m i / T) (fun x => s / N * x)). rewrite sumR_scal.
+    rewrite <- (map_map (rowsum M m) (fun x => x / T)). rewrite sumR_div. fold (total M n m). fold T.
+    unfold N. field. split; lra. }
+  rewrite E. pose proof (gibbs_terms l) as G. rewrite Hq, Hbs in G.
+  apply Rle_trans with (1 - 1); [lra|]. apply G.
+  intros q b Hin. unfold l in Hin. apply in_map_iff in Hin. destruct Hin as (i & Hi & His).
+  inversion Hi; subst q b. apply in_seq in His.
+  assert (Hb : 0 <= rowsum M m i / T) by (apply Rmult_le_pos; [apply Hrs; lia|left; apply Rinv_0_lt_compat; assumption]).
+  assert (Hm : 0 <= M i j) by (apply HM; lia).
+  repeat split; auto.
+  - unfold posterior. apply Rmult_le_pos; [nra|]. left. apply Rinv_0_lt_compat. assumption.
+  - intros Hz. assert (Hr0 : rowsum M m i = 0).
+    { apply Rmult_eq_reg_r with (/ T); [|apply Rinv_neq_0_compat; lra]. unfold Rdiv in Hz. lra. }
+    assert (M i j <= rowsum M m i) by (unfold rowsum; apply (sumR_ge_term (fun k => M i k)); [intros; apply HM; lia|assumption]).
+    unfold posterior. rewrite Hz. replace (M i j) with 0 by lra. unfold Rdiv. rewrite Rmult_0_r, Rplus_0_l. apply Rmult_0_l.
+Qed.
+
+(* ------------------------------------------------------------------ the transformer *)
+Definition R_pow (x p : R) : R :=
+  if Req_EM_T x 0 then (if Req_EM_T p 0 then 1 else 0) else Rpower x p.
+
+Lemma R_pow_nonneg : forall x p, 0 <= R_pow x p.
+Proof.
+  intros. unfold R_pow. destruct (Req_EM_T x 0); [destruct (Req_EM_T p 0); lra|].
+  unfold Rpower. left. apply exp_pos.
+Qed.
+
+Section Transformer.
+  Variable eps : R.
+  Notation O := (R_ops eps).
+
+  Lemma finish_weights_R : forall w p,
+    finish_weights R O R_pow w p
+    = map (fun x => R_pow (Rmax (x / (sumR w / INR (length w))) 0) p) w.
+  Proof.
+    intros. unfold finish_weights. simpl. rewrite sum_list_R. apply map_ext. intros x. f_equal.
+    unfold R_ltb, Rmax. destruct (Rlt_dec (x / (sumR w / INR (length w))) 0); destruct (Rle_dec (x / (sumR w / INR (length w))) 0); lra.
+  Qed.
+
+  Lemma finish_weights_nonneg : forall w p, Forall (fun x => 0 <= x) (finish_weights R O R_pow w p).
+  Proof. intros. rewrite finish_weights_R. rewrite Forall_map. apply Forall_forall. intros. apply R_pow_nonneg. Qed.
+
+  Lemma zip_mul_nth : forall r w j, (j < length r)%nat -> (j < length w)%nat ->
+    nth j (zip_mul R O r w) 0 = nth j r 0 * nth j w 0.
+  Proof.
+    induction r as [|x r IH]; intros w j Hr Hw; simpl in Hr; [lia|]. destruct w as [|a w]; simpl in Hw; [lia|].
+    destruct j; simpl; [reflexivity|]. apply IH; lia.
+  Qed.
+  Lemma zip_mul_length : forall r w, length (zip_mul R O r w) = Nat.min (length r) (length w).
+  Proof. induction r; destruct w; simpl; auto. Qed.
+
+  (* transform X = X * diag(w): entry (i, j) is X_ij * w_j *)
+  Theorem transform_entry : forall rows w i j, (i < length rows)%nat ->
+    (j < length (nth i rows []))%nat -> (j < length w)%nat ->
+    nth j (nth i (transform R O rows w) []) 0 = nth j (nth i rows []) 0 * nth j w 0.
+  Proof.
+    intros rows w i j Hi Hj Hw. unfold transform.
+    rewrite (nth_indep _ [] (zip_mul R O [] w)) by (rewrite map_length; assumption).
+    rewrite (map_nth (fun r => zip_mul R O r w) rows [] i). apply zip_mul_nth; assumption.
+  Qed.
+
+  Lemma zip_mul_linear : forall a b r r' w, length r = length r' ->
+    zip_mul R O (map2 (fun x y => a * x + b * y) r r') w
+    = map2 (fun x y => a * x + b * y) (zip_mul R O r w) (zip_mul R O r' w).
+  Proof.
+    induction r; destruct r', w; simpl; intros; try discriminate; auto.
+    f_equal; [ring|]. apply IHr. lia.
+  Qed.
+
+  Theorem transform_linear : forall a b X Y w, length X = length Y ->
+    Forall2 (fun r r' => length r = length r') X Y ->
+    transform R O (map2 (fun r r' => map2 (fun x y => a * x + b * y) r r') X Y) w
+    = map2 (fun r r' => map2 (fun x y => a * x + b * y) r r') (transform R O X w) (transform R O Y w).
+  Proof.
+    intros a b X Y w Hl H. unfold transform. induction H; simpl; auto.
+    f_equal; [apply zip_mul_linear; assumption|]. apply IHForall2. simpl in Hl. lia.
+  Qed.
+End Transformer.
+
+(* ------------------------------------------------------------------ corollaries at the level of the stored matrix *)
+Lemma Mx_nonneg : forall n cols i k, Forall (col_ok n) cols -> (k < length cols)%nat -> 0 <= Mx cols i k.
+Proof.
+  intros n cols i k H Hk. unfold Mx.
+  assert (Hc : col_ok n (nth k cols [])) by (rewrite Forall_forall in H; apply H; apply nth_In; assumption).
+  destruct Hc as (Hn & _ & Hv).
+  destruct (In_dec Z.eq_dec (Z.of_nat i) (keys (nth k cols []))) as [Hin|Hnot].
+  - unfold keys in Hin. apply in_map_iff in Hin. destruct Hin as ([k' v] & Hk' & Hin). simpl in Hk'. subst k'.
+    rewrite (lookup_in_nodup _ _ v Hn Hin). unfold nonnegv in Hv. rewrite Forall_forall in Hv.
+    apply Hv. apply (in_map snd) in Hin. exact Hin.
+  - rewrite lookup_notin_keys by assumption. lra.
+Qed.
+
+Theorem information_weight_nonneg : forall eps n cols s,
+  Forall (col_ok n) cols -> 0 < s -> 0 < total (Mx cols) n (length cols) ->
+  Forall (fun w => exists x, w = Some x /\ 0 <= x) (information_weight R (R_ops eps) false n cols s).
+Proof.
+  intros eps n cols s H Hs Ht. rewrite information_weight_R by assumption.
+  rewrite Forall_map. apply Forall_forall. intros j Hj. apply in_seq in Hj.
+  eexists. split; [reflexivity|]. apply iw_spec_nonneg; auto; try lia.
+  intros i k _ Hk. apply (Mx_nonneg n); assumption.
+Qed.
+
+Theorem information_weight_layout : forall eps n cols cols' s,
+  Forall (col_ok n) cols -> Forall (col_ok n) cols' -> length cols = length cols' -> 0 < s ->
+  (forall i j, (i < n)%nat -> (j < length cols)%nat -> Mx cols i j = Mx cols' i j) ->
+  information_weight R (R_ops eps) false n cols s = information_weight R (R_ops eps) false n cols' s.
+Proof.
+  intros eps n cols cols' s H H' Hl Hs HM. rewrite !information_weight_R by assumption. rewrite <- Hl.
+  apply map_ext_in. intros j Hj. apply in_seq in Hj. f_equal. apply iw_spec_ext; [lia|assumption].
+Qed.
